@@ -54,6 +54,11 @@ pub struct ExtMetadataBlockLevel8 {
 
 impl ExtMetadataBlockLevel8 {
     pub(crate) fn parse(reader: &mut BsIoSliceReader, length: u64) -> Result<ExtMetadataBlock> {
+        ensure!(
+            matches!(length, 10 | 12 | 13 | 19 | 25),
+            "Invalid L8 block length: {length}"
+        );
+
         let mut block = Self {
             length,
             target_display_index: reader.get_n(8)?,
@@ -137,6 +142,11 @@ impl ExtMetadataBlockLevel8 {
     }
 
     pub fn validate(&self) -> Result<()> {
+        ensure!(
+            matches!(self.length, 10 | 12 | 13 | 19 | 25),
+            "Invalid L8 block length: {}",
+            self.length
+        );
         ensure!(self.trim_slope <= MAX_12_BIT_VALUE);
         ensure!(self.trim_offset <= MAX_12_BIT_VALUE);
         ensure!(self.trim_power <= MAX_12_BIT_VALUE);
